@@ -123,12 +123,17 @@ func (g *G) acct(i int) string {
 }
 
 // badAddr is an address token that names no usable scenario account.
-func (g *G) badAddr() string { return g.pick("X", "-", "Ment", "Mstr", "Mgov", "Mfee", fmt.Sprintf("U%d", g.anyAcct())) }
+func (g *G) badAddr() string {
+	return g.pick("X", "-", "Ment", "Mstr", "Mgov", "Mfee", fmt.Sprintf("U%d", g.anyAcct()))
+}
 
 // payer picks an account able to pay fees and deposits (falls back to any account).
 func (g *G) payer(v *view, who int) int {
 	if who >= 0 {
 		return who
+	}
+	if len(v.locked) > 0 && g.chance(g.w.lockedPct) {
+		return g.pickInt(v.locked) // pays (partly) with locked eFUND
 	}
 	if len(v.funded) > 0 {
 		return g.pickInt(v.funded)
